@@ -160,9 +160,13 @@ where
     }
 
     /// Get's the height of a given block based on its position in the block queue.
+    ///
+    /// `tip` only moves when a block is evicted, so it is the height of the newest block of a **full** queue. The oldest
+    /// block is therefore always at `tip + 1 - size`, no matter how many blocks are currently held (the queue is not full
+    /// after a disconnection and until the replacement blocks are connected).
     pub fn get_height(&self, block_hash: &BlockHash) -> Option<usize> {
         let pos = self.blocks.iter().position(|x| x == block_hash)?;
-        Some(self.tip as usize + pos + 1 - self.blocks.len())
+        Some(self.tip as usize + pos + 1 - self.size)
     }
 
     /// Updates the index by adding data from a new block. Removes the oldest block if the index is full afterwards.
